@@ -286,8 +286,8 @@ func checkC12(c *Ctx) {
 		r := rand.New(rand.NewSource(c.Seed*71 + 9))
 		r.Shuffle(len(batches), func(i, j int) { batches[i], batches[j] = batches[j], batches[i] })
 		batches = batches[:5]
-	} else if len(batches) > 40 {
-		batches = batches[:40]
+	} else if len(batches) > 24 {
+		batches = batches[:24]
 	}
 	type pkgSrc struct {
 		name  string
@@ -336,7 +336,7 @@ func checkC12(c *Ctx) {
 
 	pms := c12PrefixMaps()
 	orders := []string{""}
-	for i := 0; i < tierN(c, 2, 12); i++ {
+	for i := 0; i < tierN(c, 2, 5); i++ {
 		orders = append(orders, fmt.Sprint(c.Seed*100+int64(i)+1))
 	}
 	type job struct {
